@@ -918,6 +918,25 @@ def mini_exec(fn: ast.FunctionDef, args: Dict[str, object], budget: int = 2000, 
             return True
         return bool(v)
 
+    def obj_eq(a, b):
+        """a == b as Python decides it: an object of the program follows its class's __eq__ (looked up on the left operand first)."""
+        for x, y in ((a, b), (b, a)):
+            if isinstance(x, SampleObj) and not isinstance(x, SampleElem) and classes and x.get("__kind__") in classes \
+                    and isinstance(classes[x["__kind__"]].get("__eq__"), ast.FunctionDef):
+                m2_ = classes[x["__kind__"]]["__eq__"]
+                ps_ = [a_.arg for a_ in m2_.args.args]
+                r_ = mini_exec(m2_, {ps_[0]: x, ps_[1]: y}, budget, methods, _depth + 1, functions, ctors, classes, consts)
+                if r_ is not NotImplemented:
+                    return truth(r_)
+        if type(a) is type(b) and type(a) in (list, tuple) and any(isinstance(x, SampleObj) for x in list(a) + list(b)):
+            return len(a) == len(b) and all(x is y or obj_eq(x, y) for x, y in zip(a, b))
+        return a == b
+
+    def obj_in(a, seq):
+        if isinstance(seq, (list, tuple)) and (isinstance(a, SampleObj) or any(isinstance(x, SampleObj) for x in seq)):
+            return any(x is a or obj_eq(x, a) for x in seq)
+        return a in seq
+
     def ev(e):
         if isinstance(e, ast.Attribute):
             try:
@@ -1389,7 +1408,7 @@ def mini_exec(fn: ast.FunctionDef, args: Dict[str, object], budget: int = 2000, 
             l = ev(e.left)
             for op_, c_ in zip(e.ops, e.comparators):
                 r = ev(c_)
-                f_ = {ast.Eq: lambda a, b: a == b, ast.NotEq: lambda a, b: a != b, ast.In: lambda a, b: a in b, ast.NotIn: lambda a, b: a not in b,
+                f_ = {ast.Eq: lambda a, b: obj_eq(a, b), ast.NotEq: lambda a, b: not obj_eq(a, b), ast.In: lambda a, b: obj_in(a, b), ast.NotIn: lambda a, b: not obj_in(a, b),
                       ast.Lt: lambda a, b: a < b, ast.LtE: lambda a, b: a <= b, ast.Gt: lambda a, b: a > b, ast.GtE: lambda a, b: a >= b,
                       ast.Is: lambda a, b: a is b, ast.IsNot: lambda a, b: a is not b}.get(type(op_))
                 if f_ is None:
@@ -1404,7 +1423,7 @@ def mini_exec(fn: ast.FunctionDef, args: Dict[str, object], budget: int = 2000, 
         if isinstance(e, ast.Compare) and len(e.ops) == 1:
             l, r = ev(e.left), ev(e.comparators[0])
             op = type(e.ops[0])
-            table = {ast.Eq: lambda: l == r, ast.NotEq: lambda: l != r, ast.In: lambda: l in r, ast.NotIn: lambda: l not in r, ast.Lt: lambda: l < r,
+            table = {ast.Eq: lambda: obj_eq(l, r), ast.NotEq: lambda: not obj_eq(l, r), ast.In: lambda: obj_in(l, r), ast.NotIn: lambda: not obj_in(l, r), ast.Lt: lambda: l < r,
                      ast.LtE: lambda: l <= r, ast.Gt: lambda: l > r, ast.GtE: lambda: l >= r, ast.Is: lambda: l is r, ast.IsNot: lambda: l is not r}
             if op not in table:
                 raise _PathEval.Unknown("comparison")
